@@ -10,11 +10,13 @@ import (
 	"crypto/sha256"
 	"crypto/tls"
 	"crypto/x509"
+	"crypto/x509/pkix"
 	"encoding/base64"
 	"encoding/json"
 	"encoding/pem"
 	"fmt"
 	"io/ioutil"
+	"math/big"
 	"net"
 	"net/http"
 	"net/http/httptest"
@@ -387,6 +389,131 @@ func (env *verifEnv) c09StateFingerprint() string {
 	}
 	return fmt.Sprintf("signer=%v ed=%v ca=%d role=%v pub=%d digest=%x", st.Signer != nil, st.Ed25519Signer != nil, len(st.caCertDer),
 		st.selfRoleCaCertDer != nil, len(st.KeymasterPublicKeys), h.Sum(nil)[:8])
+}
+
+// ---------------------------------------------------------------- the admin port behind real servers
+
+// The injection sequences set http.Request.TLS themselves.  Here the two admin handlers sit behind a
+// real crypto/tls listener configured like the admin server of main() (ClientCAs = the configured
+// client CA pool, VerifyClientCertIfGiven) and behind a plain HTTP listener; the client really
+// presents (or does not present) a certificate, so "TLS", "verified chain" are what the handshake
+// delivers.  Returns the ops (in the model's terms) and the observations after each.
+func c09RealAdmin(t *testing.T, res *verifResult, v c09Variant) ([]c09Op, []c09Obs) {
+	env := c09Sealed(t, v, nil)
+	st := env.state
+	mux := http.NewServeMux()
+	mux.HandleFunc(secretInjectorPath, st.secretInjectorHandler)
+	mux.HandleFunc(readyzPath, st.readyzHandler)
+	tlsSrv := httptest.NewUnstartedServer(mux)
+	tlsSrv.TLS = &tls.Config{ClientCAs: st.ClientCAPool, ClientAuth: tls.VerifyClientCertIfGiven, MinVersion: tls.VersionTLS12}
+	tlsSrv.StartTLS()
+	defer tlsSrv.Close()
+	plainSrv := httptest.NewServer(mux)
+	defer plainSrv.Close()
+	adminPair, err := tls.LoadX509KeyPair(filepath.Join(env.dir, "etc/keymaster/adminClient.pem"), filepath.Join(env.dir, "etc/keymaster/adminClient.key"))
+	if err != nil {
+		t.Fatal(err)
+	}
+	// a client certificate of a CA the server does not know
+	fk := verifNewKeys()
+	ftmpl := x509.Certificate{SerialNumber: big.NewInt(11), Subject: pkix.Name{CommonName: "admin"}, NotBefore: time.Now().Add(-time.Hour),
+		NotAfter: time.Now().Add(24 * time.Hour), KeyUsage: x509.KeyUsageDigitalSignature, ExtKeyUsage: []x509.ExtKeyUsage{x509.ExtKeyUsageClientAuth}, BasicConstraintsValid: true}
+	fder, err := x509.CreateCertificate(rand.Reader, &ftmpl, &ftmpl, &fk.ec.PublicKey, fk.ec)
+	if err != nil {
+		t.Fatal(err)
+	}
+	foreignPair := tls.Certificate{Certificate: [][]byte{fder}, PrivateKey: fk.ec}
+	type step struct {
+		name  string
+		base  string
+		cert  *tls.Certificate
+		pass  string
+		op    *c09Op // nil: the handshake itself must fail, nothing reaches the handler
+		shape string
+	}
+	steps := []step{
+		{"TLS, no client certificate, right passphrase", tlsSrv.URL, nil, verifPassphrase, &c09Op{true, false, true, verifPassphrase}, "no-client-certificate"},
+		{"TLS, client certificate of an unknown CA, right passphrase", tlsSrv.URL, &foreignPair, verifPassphrase, nil, "foreign-client-certificate"},
+		{"plain HTTP, right passphrase", plainSrv.URL, nil, verifPassphrase, &c09Op{false, false, true, verifPassphrase}, "plain-http"},
+		{"TLS, admin client certificate, wrong passphrase", tlsSrv.URL, &adminPair, "wrong passphrase", &c09Op{true, true, true, "wrong passphrase"}, "admin-certificate-wrong-passphrase"},
+		{"TLS, admin client certificate, right passphrase", tlsSrv.URL, &adminPair, verifPassphrase, &c09Op{true, true, true, verifPassphrase}, "admin-certificate-right-passphrase"},
+		{"TLS, admin client certificate, right passphrase again", tlsSrv.URL, &adminPair, verifPassphrase, &c09Op{true, true, true, verifPassphrase}, "admin-certificate-right-passphrase"},
+	}
+	client := func(cert *tls.Certificate) *http.Client {
+		tc := &tls.Config{InsecureSkipVerify: true}
+		if cert != nil {
+			// present it whatever CA names the server's CertificateRequest lists (crypto/tls would
+			// otherwise silently withhold a certificate of an unlisted issuer)
+			tc.GetClientCertificate = func(*tls.CertificateRequestInfo) (*tls.Certificate, error) { return cert, nil }
+		}
+		return &http.Client{Transport: &http.Transport{TLSClientConfig: tc, DisableKeepAlives: true}, Timeout: 20 * time.Second}
+	}
+	var ops []c09Op
+	var obs []c09Obs
+	ready := 0
+	for _, sp := range steps {
+		before := env.c09StateFingerprint()
+		form := url.Values{}
+		form.Set("ssh_ca_password", sp.pass)
+		resp, err := client(sp.cert).PostForm(sp.base+secretInjectorPath, form)
+		code := 0
+		if err == nil {
+			ioutil.ReadAll(resp.Body)
+			resp.Body.Close()
+			code = resp.StatusCode
+		}
+		for {
+			select {
+			case <-st.SignerIsReady:
+				ready++
+				continue
+			default:
+			}
+			break
+		}
+		// readiness as a prober sees it, over the TLS listener without a client certificate
+		rz := 0
+		if r2, err := client(nil).Get(tlsSrv.URL + readyzPath); err == nil {
+			ioutil.ReadAll(r2.Body)
+			r2.Body.Close()
+			rz = r2.StatusCode
+		}
+		after := env.c09StateFingerprint()
+		cs := map[string]interface{}{"variant": v.name, "step": sp.name, "transport": "real listeners"}
+		if sp.op == nil {
+			if err == nil || after != before {
+				res.hit(verifHit{Key: "C09:admin-port:" + sp.shape, Oracle: "a client certificate the configured client CA did not issue never reaches the injection handler",
+					What: fmt.Sprintf("%s: status %d, state before {%s} after {%s}", sp.name, code, before, after), Case: cs})
+			}
+			res.eval("admin-real|"+sp.shape+"|handshake-refused", true)
+			continue
+		}
+		if err != nil {
+			res.hit(verifHit{Key: "C09:harness:admin-port", Oracle: "harness", What: fmt.Sprintf("%s: %v", sp.name, err), Case: cs})
+			continue
+		}
+		right := sp.op.tls && sp.op.chain && sp.pass == verifPassphrase
+		if code != 200 && after != before {
+			res.hit(verifHit{Key: "C09:refused-injection-changed-state:" + v.shape(), Oracle: "an injection that is answered with an error leaves the server as it was (sealed, not ready, same key material)",
+				What: fmt.Sprintf("%s was answered %d, yet the state changed: before {%s}, after {%s}", sp.name, code, before, after), Case: cs})
+		}
+		st.Mutex.Lock()
+		o := c09Obs{code: code, readyz: rz, sealed: st.Signer == nil, ed: st.Ed25519Signer != nil, role: st.selfRoleCaCertDer != nil,
+			nca: len(st.caCertDer), npub: len(st.KeymasterPublicKeys), ready: ready}
+		st.Mutex.Unlock()
+		if !o.sealed && !right && len(obs) > 0 && obs[len(obs)-1].sealed {
+			res.hit(verifHit{Key: "C09:admin-port:" + sp.shape, Oracle: "only the right passphrase over TLS with a client certificate of the configured client CA unseals",
+				What: fmt.Sprintf("%s unsealed the server (status %d)", sp.name, code), Case: cs})
+		}
+		if (rz == 200) != !o.sealed {
+			res.hit(verifHit{Key: "C09:readyz", Oracle: "/readyz reports ready iff unsealed", What: fmt.Sprintf("%s: readyz=%d sealed=%v", sp.name, rz, o.sealed), Case: cs})
+		}
+		ops = append(ops, *sp.op)
+		obs = append(obs, o)
+		res.eval(fmt.Sprintf("admin-real|%s|%d", sp.shape, code), sp.op.tls && sp.op.chain)
+		res.bump("admin_port_real_listener")
+	}
+	return ops, obs
 }
 
 func c09Alphabet() []c09Op {
@@ -880,8 +1007,8 @@ func TestVerif_C09(t *testing.T) {
 			if !ob.blocked && ob.code != 200 {
 				if after := env.c09StateFingerprint(); after != before || total != readyBefore {
 					res.hit(verifHit{Key: "C09:refused-injection-changed-state:" + v.shape(), Oracle: "an injection that is answered with an error leaves the server as it was (sealed, not ready, same key material)",
-						What:     fmt.Sprintf("injection %s on key files {%s} was answered %d, yet the state changed: before {%s}, after {%s}, ready messages %d -> %d", o, v.shape(), ob.code, before, after, readyBefore, total),
-						Case:     cs, Observed: map[string]interface{}{"status": ob.code, "before": before, "after": after, "readyz": ob.readyz}})
+						What: fmt.Sprintf("injection %s on key files {%s} was answered %d, yet the state changed: before {%s}, after {%s}, ready messages %d -> %d", o, v.shape(), ob.code, before, after, readyBefore, total),
+						Case: cs, Observed: map[string]interface{}{"status": ob.code, "before": before, "after": after, "readyz": ob.readyz}})
 				}
 			}
 			if ob.blocked {
@@ -948,6 +1075,11 @@ func TestVerif_C09(t *testing.T) {
 			}
 			runSeq(vi, ops)
 		}
+	}
+	// the admin port behind real listeners (TLS like main()'s admin server, and plain HTTP)
+	for _, vi := range []int{1, 3} {
+		ops, obs := c09RealAdmin(t, res, c09Variants[vi])
+		seqs = append(seqs, seqCase{variant: vi, ops: ops, obs: obs})
 	}
 	sb.WriteString("Definition seq_cases : list (nat * list inj * list (N * N * (bool * bool * nat * nat * nat * bool))) := [\n")
 	for i, sc := range seqs {
